@@ -60,6 +60,11 @@ def bad_calls(M, rng, held):
         ('level-conflict', 'add_var', (0, (b.vars[vname(0)] + 1) % max(n, 1) if n > 1 else 5)),
         ('level-conflict', 'add_var', (undeclared + 5, 0)),
         ('bad-order', 'swap', (0, n + 1)),
+        # boundary levels: the terminal's level n, a negative level, the pair reversed
+        ('bad-order', 'swap', (n - 1, n)) if n >= 1 else None,
+        ('bad-order', 'swap', (n, n - 1)) if n >= 1 else None,
+        ('bad-order', 'swap', (n - 2, n)) if n >= 2 else None,
+        ('bad-order', 'swap', (-1, 0)),
         ('bad-order', 'swap', (0, 2)) if n >= 3 else None,
         ('bad-order', 'swap', (1, 1)) if n >= 2 else None,
         ('bad-order', 'reorder', ({0: 0},)) if n >= 2 else None,
